@@ -220,7 +220,11 @@ func filterOpOnDataType(rec []byte, qValDte *DtypeEnclosure, fop FilterOperator,
 				return filterOpOnRecNumberEncType(rec, qValDte, fop, isRegexSearch, recDte)
 			}
 
-			return false, nil
+			// The stored value is not a string (a number, a bool, or no value
+			// at all): it is not equal to the string literal, so only != holds -
+			// as for an event in a block that does not have the column (above),
+			// and as fopOnNumber does for a number literal against a string.
+			return fop == NotEquals, nil
 		}
 		return fopOnString(rec, qValDte, fop, isRegexSearch, isCaseInsensitive)
 	case SS_DT_BOOL:
